@@ -15,7 +15,7 @@ semantics), clap's own parsing."""
 import re
 
 from ..common import find_nodes, guards, lib_reachable, short, src_file, where
-from ..exprs import closure_of, decode_fmt_template, mentions, strip, subst_closure
+from ..exprs import format_parts, closure_of, decode_fmt_template, mentions, strip, subst_closure
 from ..mirlib import Expr, Program, expr_str, op_const, op_place
 
 MAIN = "svgbob_cli::main"
@@ -450,9 +450,74 @@ def run(run):
                         "%s: the error arm neither exits non-zero, propagates, nor feeds a failure that is reported" % inst)
     x8(run)
     x7(run, MAIN)
+    x9(run)
     x6(run)
     batch(run)
     run.assume("clap parses the command line as documented; fs::write may leave a partial file on I/O errors (not decided)")
+
+
+LOSSY_NAME = re.compile(r"Path(Buf)?::(set_extension|with_extension|set_file_name|with_file_name|pop|file_prefix)$|"
+                        r"str::(trim\w*|replace\w*|replacen|split\w*|rsplit\w*|to_lowercase|to_uppercase|to_ascii_\w+)$|String::(truncate|pop|remove|retain|drain)$|"
+                        r"OsStr::to_string_lossy$|Path::to_string_lossy$")
+
+
+def x9(run):
+    """X9 the batch mode writes one document per matching file: the destination handed to convert_file is
+    `<out dir>/<file stem of the source>.svg` - the stem of *that* directory entry, completed by a constant suffix, so two
+    different source names can never get the same destination.  Operations that cut or replace part of the name
+    (set_extension / with_extension replace what follows the *last* dot of the stem: `a.v2.bob` -> `a.svg`; trimming,
+    splitting, case folding, lossy decoding) are reported where the destination is built."""
+    prog = run.prog
+    b = "svgbob_cli::build"
+    if b not in prog.bodies:
+        run.missing("C19.X9", b)
+        return
+    region = [b] + [c for c in prog.closures_of(b)]
+    sites = []
+    for q in region:
+        qex = None
+        for bid, t in prog.calls(q):
+            if Program.callee_name(t).endswith("svgbob_cli::convert_file") and len(t["args"]) == 2:
+                qex = qex or Expr(prog, q)
+                sites.append((q, t, strip(qex.operand(t["args"][0])), strip(qex.operand(t["args"][1]))))
+    if not sites:
+        run.missing("C19.X9", "call of convert_file in build")
+        return
+    any_next = lambda z: z[0] == "call" and re.search(r"Iterator>?::next$", z[1])
+
+    def core(e):
+        e = strip(e)
+        while e[0] == "call" and e[2] and re.search(r"Clone>::clone$|Deref>::deref$|PathBuf::as_path$|Path::to_path_buf$|AsRef<.*>>::as_ref$|Borrow<.*>>::borrow$|ToOwned>::to_owned$", e[1]):
+            e = strip(e[2][0])
+        return e
+    for q, t, src, dst in sites:
+        lossy = set()
+        mentions(dst, lambda z: z[0] in ("call", "mutated_by") and isinstance(z[1], str) and LOSSY_NAME.search(z[1]) and lossy.add(z[1]) and False)
+        if lossy:
+            run.bad("C19.X9", "batch-destination-lossy", where(t),
+                    "build derives the output file name with %s: part of the source name is cut off or replaced, so different sources (`flow.bob`, `flow.v2.bob`) can be written to the same file and one document is lost without a diagnostic" % ", ".join(sorted(short(x) for x in lossy)))
+            continue
+        # positive form: push/join of format!("{}.svg", file_stem(<this entry>))
+        ok = False
+        cands = []
+        mentions(dst, lambda z: ((z[0] == "mutated_by" and re.search(r"PathBuf::push$", z[1]) and len(z[2]) == 2 and cands.append(z[2][1])) or
+                                  (z[0] == "call" and re.search(r"Path::join$", z[1]) and len(z[2]) == 2 and cands.append(z[2][1]))) and False)
+        for c in cands:
+            fp = format_parts(c)
+            if not fp:
+                continue
+            pieces, args = fp
+            if [pc[0] for pc in pieces] == ["arg", "lit"] and pieces[1][1] == ".svg" and len(args) == 1:
+                a = args[0][1]
+                stem = []
+                mentions(a, lambda z: z[0] == "call" and z[1].endswith("Path::file_stem") and stem.append(z) and False)
+                # the stem is taken from the very path that is converted (same value up to clones / derefs)
+                if len(stem) == 1 and stem[0][2] and core(stem[0][2][0]) == core(src) and mentions(src, any_next):
+                    ok = True
+        if ok:
+            run.ok("C19.X9", "build writes <out dir>/<file stem of the entry>.svg (constant suffix appended to the whole stem)", where(t))
+        else:
+            run.bad("C19.X9", "batch-destination-shape", where(t), "the destination passed to convert_file is `%s`, not <out dir> joined with format!(\"{}.svg\", <file stem of the entry>)" % expr_str(dst)[:160])
 
 
 def x8(run):
